@@ -15,13 +15,48 @@ from terms import show
 MACRO_ALPHABET = {"dna_seq": ("codec::dna::Dna", "ACGT", {}), "iupac_seq": ("codec::iupac::Iupac", "ACGTRYSWKMBDHVN-X", {"X": "-"})}
 
 
-def macro_table(chk, cfg, fn):
-    """char -> bit list, read from the proc-macro's MIR (loop summarised per character)"""
+class _Soft:
+    """collects "cannot establish from MIR" reasons: the caller then falls back to the compile-time witness table"""
+
+    def __init__(self, chk):
+        self.chk = chk
+        self.reasons = []
+
+    def cannot(self, rule, anchor, why, where=None):
+        self.reasons.append("%s: %s" % (anchor, why))
+
+    def __getattr__(self, name):
+        return getattr(self.chk, name)
+
+
+def table_fn(cfg, macro, fn):
+    """the function holding the macro's per-character table: by its frozen name, else the crate function called from the
+    proc-macro entry point whose Result feeds gen_seqarray (call graph, not name)"""
     b = [x for x in cfg.derive.bodies if x["path"] == "seqarray::" + fn]
-    if len(b) != 1:
+    if len(b) == 1:
+        return b[0]
+    e = [x for x in cfg.derive.bodies if x["path"] == macro and x["kind"] == "Fn"]
+    if len(e) != 1:
+        return None
+    cands = set()
+    try:
+        paths, _ = an.analyse(cfg, e[0], policy=an.NoInline(), eng=cfg.deng)
+    except Exception:
+        return None
+    local = {x["path"]: x for x in cfg.derive.bodies if x["kind"] in ("Fn", "AssocFn")}
+    for p in paths:
+        for key, args, res, ev in p.calls:
+            if key in local and re.search(r"Result<\(usize, std::vec::Vec<u8>\), syn::Error>", local[key].get("ret_ty") or ""):
+                cands.add(key)
+    return local[next(iter(cands))] if len(cands) == 1 else None
+
+
+def macro_table(chk, cfg, fn, macro=None):
+    """char -> bit list, read from the proc-macro's MIR (loop summarised per character)"""
+    b = table_fn(cfg, macro or fn.split("_")[0], fn)
+    if b is None:
         chk.cannot("T-macro", fn, "macro table function not found in bio_seq_derive")
         return None
-    b = b[0]
     paths, _ = an.analyse(cfg, b, policy=an.SeqPolicy(), eng=cfg.deng)   # private helpers (a per-character table function, ...) are inlined
     table = {}
     errs = [p for p in paths if p.end == "return" and p.ret[0] == "agg" and p.ret[3] == "Err"]
@@ -172,6 +207,48 @@ def invalid_literals(tier):
     return inv
 
 
+def _esc(ch):
+    return {'"': '\\"', "\\": "\\\\", "\n": "\\n", "\t": "\\t", "\r": "\\r"}.get(ch, ch)
+
+
+def witness_table(chk, kind, cd):
+    """char -> bit list of dna!/iupac! decided by the compiler: for every printable ASCII character (and tab, LF, CR) the literal
+    "AC<ch>GT" either fails to compile (rejected) or compiles to a static whose third symbol gives the character's code."""
+    chars = [chr(o) for o in range(0x20, 0x7f)] + ["\t", "\n", "\r"]
+    ty = "Dna" if kind == "dna" else "Iupac"
+    out = ["//! generated witness harness (compile_fail / no_run only)\n"]
+    for i, ch in enumerate(chars):
+        out.append("/// ```compile_fail\n/// use bio_seq::prelude::*;\n/// let _s: &'static SeqSlice<%s> = %s!(\"AC%sGT\");\n/// ```\npub fn c_%03d() {}\n" % (ty, kind, _esc(ch), i))
+    out.append("/// ```no_run\n/// use bio_seq::prelude::*;\n/// let _s: &'static SeqSlice<%s> = %s!(\"ACAGT\");\n/// ```\npub fn twin() {}\n" % (ty, kind))
+    res, raw, rc = witness.doctests("bsq_witness_tab_" + kind, "\n".join(out))
+    if res.get("twin") != "ok" or any(("c_%03d" % i) not in res for i in range(len(chars))):
+        chk.cannot("T-macro", kind + "!", "witness harness for the per-character table did not run: " + raw[-200:])
+        return None
+    accepted = [ch for i, ch in enumerate(chars) if res["c_%03d" % i] != "ok"]
+    src = ["#![allow(dead_code)]\nuse bio_seq::prelude::*;\n"]
+    for i, ch in enumerate(accepted):
+        src.append('pub fn w_%03d() -> &\'static SeqSlice<%s> { %s!("AC%sGT") }' % (i, ty, kind, _esc(ch)))
+    ok, crate, diags, err = witness.build("bsq_witness_tabv_" + kind, {"src/lib.rs": "\n".join(src) + "\n"})
+    if not ok:
+        chk.cannot("T-macro", kind + "!", "witness crate for accepted characters does not build: " + str([d["message"] for d in diags][:2] or err[-200:]))
+        return None
+    table = {}
+    bits = cd.bits
+    for i, ch in enumerate(accepted):
+        st = [e for p, es in crate.evals.items() for e in es if e.get("kind") == "static" and p.startswith("w_%03d::" % i) and (e.get("adt") or "").endswith("SeqArray")]
+        if len(st) != 1:
+            chk.cannot("T-macro", kind + "!", "no evaluated static for accepted character %r" % ch)
+            return None
+        args = st[0].get("adt_args") or []
+        v = int.from_bytes(bytes(st[0]["bytes"]), "little")
+        if len(args) != 3 or int(args[1]) != 5:
+            chk.fail("T-macro", "%s! %r" % (kind, ch), "mismatch", "literal \"AC%sGT\" has %s symbols instead of 5" % (ch, args[1] if len(args) > 1 else "?"))
+            continue
+        code = (v >> (2 * bits)) & ((1 << bits) - 1)
+        table[ch] = [(code >> k) & 1 for k in range(bits)]
+    return table
+
+
 def doctest_harness(tier="quick"):
     """compile_fail doctests paired with a compiling no_run twin that differs in the literal only"""
     out = ["//! generated witness harness (never executed: compile_fail / no_run only)\n"]
@@ -216,9 +293,20 @@ def run(ctx, chk):
         chk.configs.append(cfg.name)
         cs = cfg.codecs
         for fn, (cty, alphabet, syn) in MACRO_ALPHABET.items():
-            t = macro_table(chk, cfg, fn)
+            soft = _Soft(chk)
+            t = macro_table(soft, cfg, fn)
             if t is None:
-                continue
+                # the table could not be read from the macro's MIR in this shape: decide it from compile-time witnesses instead
+                key = (fn, "witness")
+                if key not in tables:
+                    tables[key] = witness_table(chk, fn.split("_")[0], cs.by_ty.get(cty))
+                t = tables[key]
+                if t is None:
+                    for r in soft.reasons[:3]:
+                        chk.cannot("T-macro", fn, r)
+                    continue
+                chk.note("%s: per-character table not readable from MIR (%s); established from compile-time witnesses: every printable ASCII "
+                         "character in one position of an otherwise valid literal (accepted -> evaluated static, rejected -> compile_fail)" % (fn, "; ".join(soft.reasons)[:200]))
             tables[fn] = t
             cd = cs.by_ty.get(cty)
             tfa, tb = cd.table_u8("try_from_ascii"), cd.sym_fn("to_bits")
